@@ -453,7 +453,7 @@ def run_impl(module: str, suite: str, cases: list, per_case_timeout: float = 20.
         if start < len(cases):
             # the worker died on case `start`
             last = (out or "").strip().splitlines()[-3:]
-            kind = "hang" if pr.returncode in (-14, 124, -9) or "WORKER-TIMEOUT" in (out or "") or \
+            kind = "hang" if pr.returncode in (-14, -27, 124, -9) or "WORKER-TIMEOUT" in (out or "") or \
                 "Timeout (" in (out or "") else "crash"
             if "MemoryError" in (out or ""):
                 kind = "oom"
